@@ -162,30 +162,42 @@ func WriteBodyFixedSize(w network.Writer, r io.Reader, size int64) error {
 	return err
 }
 
+// maxBodyPrealloc bounds how much memory is allocated for a body on the
+// sole basis of a length declared by the peer; beyond it the buffer grows
+// as the data actually arrives.
+const maxBodyPrealloc = 8 * 1024 * 1024
+
 func appendBodyFixedSize(r network.Reader, dst []byte, n int) ([]byte, error) {
 	if n == 0 {
 		return dst, nil
 	}
 
 	offset := len(dst)
-	dstLen := offset + n
-	if cap(dst) < dstLen {
-		b := make([]byte, round2(dstLen))
-		copy(b, dst)
-		dst = b
-	}
-	dst = dst[:dstLen]
-
-	// Peek can get all data, otherwise it will through error
-	buf, err := r.Peek(n)
-	if err != nil {
-		if err == io.EOF {
-			err = io.ErrUnexpectedEOF
+	for n > 0 {
+		step := n
+		if step > maxBodyPrealloc {
+			step = maxBodyPrealloc
 		}
-		return dst[:offset], err
+		start := len(dst)
+		dstLen := start + step
+		if cap(dst) < dstLen {
+			b := make([]byte, round2(dstLen))
+			copy(b, dst)
+			dst = b
+		}
+		dst = dst[:dstLen]
+
+		buf, err := r.Peek(step)
+		if err != nil {
+			if err == io.EOF {
+				err = io.ErrUnexpectedEOF
+			}
+			return dst[:offset], err
+		}
+		copy(dst[start:], buf)
+		r.Skip(len(buf)) // nolint: errcheck
+		n -= step
 	}
-	copy(dst[offset:], buf)
-	r.Skip(len(buf)) // nolint: errcheck
 	return dst, nil
 }
 
